@@ -34,6 +34,8 @@ prog!(m24, P24, A24, [u8; 24], 64, [1, 2, 3, 4, 5, 6, 7, 8, 9, 10, 11, 12, 13, 1
 prog!(m1f, P1F, A1F, u8, 31, 0xFFu8);
 prog!(m2f, P2F, A2F, u16, 32, 0xFFFFu16);
 prog!(m8f, P8F, A8F, [u8; 8], 38, [255, 255, 255, 255, 255, 255, 255, 255]);
+// a discriminant that BEGINS with 0xFF without being the closed marker (a closed account of this type must still be refused)
+prog!(m8l, P8L, A8L, [u8; 8], 39, [255, 16, 32, 48, 64, 80, 96, 112]);
 
 fn tag<T>(r: std::result::Result<Result<T>, ()>, out: &mut Vec<i128>) {
     match r {
@@ -108,6 +110,7 @@ fn main() {
             1 if all_ff => run::<A1F>(c),
             2 if all_ff => run::<A2F>(c),
             8 if all_ff => run::<A8F>(c),
+            8 if c[1] == 255 => run::<A8L>(c),
             1 => run::<A1>(c),
             2 => run::<A2>(c),
             4 => run::<A4>(c),
